@@ -84,27 +84,37 @@ SeqStr(n) == CASE n = 1 -> "1" [] n = 2 -> "2" [] n = 3 -> "3"
 AclLine(c) == IF c = "A" THEN "extended permit ip any4 10.0.1.0 255.255.255.0" ELSE "extended permit ip any4 10.0.2.0 255.255.255.0"
 TsText(c) == IF c = "T1" THEN "esp-3des esp-md5-hmac" ELSE "esp-aes-192 esp-sha-hmac"
 \* tsn maps the content of a transform-set to its name on this side
-Build6(es, mapn, sfx, tsn, bound) ==
+\* dyn: "" or the content of the crypto ACL of a dynamic map bound at sequence number dseq
+Build6(es, mapn, sfx, tsn, bound, dyn, dseq) ==
   LET S == DOMAIN es
+      dname == "dyn-map" \o sfx
+      dacl  == "crypto-dyn" \o sfx
+      dyno  == IF dyn = "" THEN {} ELSE
+               {<<Key("acl", dacl), O("acl", dacl, sfx # "", {L("", AclLine(dyn), <<>>)})>>,
+                <<Key("dmap", dname), O("dmap", dname, sfx # "", {L("10", "match address $", <<Key("acl", dacl)>>),
+                                                                  L("10", "set ikev1 transform-set $", <<Key("ts", tsn["T1"])>>)})>>}
+      dline == IF dyn = "" THEN {} ELSE {L(dseq, "ipsec-isakmp dynamic $", <<Key("dmap", dname)>>)}
       gen == sfx # ""
       acln(x) == "crypto-" \o SeqStr(x) \o sfx
       acls == {<<Key("acl", acln(x)), O("acl", acln(x), gen, {L("", AclLine(es[x].acl), <<>>)})>> : x \in {y \in S : es[y].acl # ""}}
-      tss  == {<<Key("ts", tsn[c]), O("ts", tsn[c], gen, {L("", TsText(c), <<>>)})>> : c \in {es[y].ts : y \in S}}
+      tss  == {<<Key("ts", tsn[c]), O("ts", tsn[c], gen, {L("", TsText(c), <<>>)})>> : c \in {es[y].ts : y \in S} \cup (IF dyn = "" THEN {} ELSE {"T1"})}
       lines == UNION {{L(SeqStr(x), "set peer " \o es[x].peer, <<>>),
                        L(SeqStr(x), "set ikev1 transform-set $", <<Key("ts", tsn[es[x].ts])>>)}
                       \cup (IF es[x].acl # "" THEN {L(SeqStr(x), "match address $", <<Key("acl", acln(x))>>)} ELSE {})
                       \cup (IF es[x].pfs THEN {L(SeqStr(x), "set pfs group5", <<>>)} ELSE {}) : x \in S}
-      cmap == IF S = {} THEN {} ELSE {<<Key("cmap", mapn), O("cmap", mapn, FALSE, lines)>>}
-      cmi  == IF S = {} \/ ~bound THEN {} ELSE {<<Key("cmi", "inside"), O("cmi", "inside", FALSE, {L("", "$ interface", <<Key("cmap", mapn)>>)})>>}
-  IN [objs |-> F(acls \cup tss \cup cmap \cup cmi)]
+      cmap == IF S = {} /\ dyn = "" THEN {} ELSE {<<Key("cmap", mapn), O("cmap", mapn, FALSE, lines \cup dline)>>}
+      cmi  == IF (S = {} /\ dyn = "") \/ ~bound THEN {} ELSE {<<Key("cmi", "inside"), O("cmi", "inside", FALSE, {L("", "$ interface", <<Key("cmap", mapn)>>)})>>}
+  IN [objs |-> F(acls \cup tss \cup cmap \cup cmi \cup dyno)]
 F6L ==
-  \E ed \in RandomSubset(60, CEntrySets({1, 2, 3})), et \in RandomSubset(50, CEntrySets({1, 2})),
+  \E ed \in RandomSubset(25, CEntrySets({1, 2, 3})), et \in RandomSubset(22, CEntrySets({1, 2})),
      mapn \in {"crypto-inside", "crypto-x"}, sfx \in {"", "-DRC-0"},
-     tsd \in {[T1 |-> "Trans1", T2 |-> "Trans2"], [T1 |-> "Trans2", T2 |-> "Trans1"], [T1 |-> "Trans1-DRC-0", T2 |-> "Trans2-DRC-0"]} :
+     tsd \in {[T1 |-> "Trans1", T2 |-> "Trans2"], [T1 |-> "Trans2", T2 |-> "Trans1"], [T1 |-> "Trans1-DRC-0", T2 |-> "Trans2-DRC-0"]},
+     dd, dt \in {"", "", "A", "B"}, ds \in {"65535", "65000"} :
     /\ DOMAIN et \in {{}, {1}, {1, 2}}
-    /\ (DOMAIN ed = {} => mapn = "crypto-inside" /\ sfx = "" /\ tsd = [T1 |-> "Trans1", T2 |-> "Trans2"])
-    /\ dev = Build6(ed, mapn, sfx, tsd, TRUE)
-    /\ tgt = Build6(et, "crypto-inside", "", [T1 |-> "Trans1", T2 |-> "Trans2"], TRUE)
+    /\ (DOMAIN ed = {} /\ dd = "" => mapn = "crypto-inside" /\ sfx = "" /\ tsd = [T1 |-> "Trans1", T2 |-> "Trans2"])
+    /\ (dd = "" => ds = "65535")
+    /\ dev = Build6(ed, mapn, sfx, tsd, TRUE, dd, ds)
+    /\ tgt = Build6(et, "crypto-inside", "", [T1 |-> "Trans1", T2 |-> "Trans2"], TRUE, dt, "65535")
 
 Init == CASE Fam = "F5" -> F5 [] Fam = "F6L" -> F6L
 Next == UNCHANGED <<dev, tgt>>
